@@ -41,10 +41,11 @@ def replay_behaviour(digital_rf, root, beh, real, rng, seed, name, dtype=None, c
     """execute a TLC behaviour of MCDrfChannel (sim scope) on the real writer/reader"""
     c0 = tlc.tla_to_py(beh[0][1]["cfg"])
     mode, nd = c0["mode"], c0["nd"]
-    dtype = dtype or rng.choice(cg.DTYPES)
-    order = "|" if dtype.endswith("1") else rng.choice(["<", ">"])
+    i = seed
+    dtype = dtype or cg.DTYPES[(i // 4) % 10]
+    order = "|" if dtype.endswith("1") else "<>"[(i // 40 + i) % 2]
     cc = cd.ChanConfig(real["n"], real["d"], real["fc"], real["sc"], np.dtype(dtype if order == "|" else order + dtype),
-                       rng.random() < 0.5, rng.choice([1, 2, 3]), mode, real["t0"], len(c0["bound"]) - 1,
+                       bool((i // 2) % 2), [1, 2, 3][(i // 8 + i) % 3], mode, real["t0"], len(c0["bound"]) - 1,
                        compression=(rng.choice([0, 1, 9]) if mode != "contU" else 0), checksum=False, seed=seed, nd=nd)
     if cc.bound != c0["bound"]:
         raise Machinery("realisation %s does not realise the model partition %s: %s" % (real, c0["bound"], cc.bound))
@@ -52,10 +53,11 @@ def replay_behaviour(digital_rf, root, beh, real, rng, seed, name, dtype=None, c
         shutil.rmtree(root)
     os.makedirs(root)
     p1 = cc.params()
+    p2 = cg.mismatch_params(rng, p1, cg.MISMATCH_KINDS[seed % len(cg.MISMATCH_KINDS)])
     if cdriver:
-        ch = cd.CChannel(digital_rf, root, cc, [p1, cg.mismatch_params(rng, p1)], cdriver)
+        ch = cd.CChannel(digital_rf, root, cc, [p1, p2], cdriver)
     else:
-        ch = cd.Channel(digital_rf, root, cc, [p1, cg.mismatch_params(rng, p1)])
+        ch = cd.Channel(digital_rf, root, cc, [p1, p2])
     is_open = False
     touched = set()
     for act, st in beh[1:]:
@@ -113,7 +115,7 @@ def e3(ctx, digital_rf, n, cdriver=None, capi_every=0, **kw):
     for i in range(n):
         use_c = cdriver if (capi_every and i % capi_every == capi_every - 1) else None
         sc, rr, cc = cg.run_random(digital_rf, os.path.join(ctx.work, "chan"), ctx.rng, ctx.seed * 104729 + i,
-                                   "rand%d%s" % (i, "-capi" if use_c else ""), cdriver=use_c, **kw)
+                                   "rand%d%s" % (i, "-capi" if use_c else ""), cdriver=use_c, strat=ctx.seed * 7 + i, **kw)
         scen.append(sc)
         recs.append((cc, rr))
     return scen, recs
